@@ -157,6 +157,14 @@ func NewExec(cfg M) (*Exec, error) {
 			return x.middleware(ctx, idx, outcome)
 		}))
 	}
+	if S(cfg, "ctx") == "dead" {
+		// the last session middleware hands the connection a context that has already ended
+		opts = append(opts, wire.SessionMiddleware(func(ctx context.Context) (context.Context, error) {
+			dead, cancel := context.WithCancel(ctx)
+			cancel()
+			return dead, nil
+		}))
+	}
 	if t := S(cfg, "term"); t != "" && t != "none" {
 		x.termFails = t == "fail"
 		opts = append(opts, wire.TerminateConn(x.terminate))
